@@ -509,6 +509,10 @@ func c06(c *Ctx) {
 		}
 		r := RpServer(mode).RpPlay(items, flush)
 		c.Case(req, r.Canon(mode), len(r.Frames) > 0)
+		if len(r.Frames) > 1000 && len(r.Frames) < 70000 {
+			// the oracle driver's loop evaluation (used beyond 70 000 items) must agree with run_items
+			c.Case("conviter "+mode+" "+strings.Join(toks, " "), r.Canon(mode), true)
+		}
 		direct(c, mode, req, items, r)
 	}
 
